@@ -10,6 +10,7 @@ import (
 	"strings"
 
 	"golang.org/x/tools/go/packages"
+	"golang.org/x/tools/go/ssa"
 
 	"verif/checker/layout"
 	"verif/checker/load"
@@ -25,6 +26,7 @@ func init() {
 			"R3 refusal: every function with constant accesses to a []byte parameter has a length guard covering its largest bound (unexported functions: every call site passes a constant-width slice of sufficient width); narrowing integer conversions in writers are preceded by a range check of the source that returns an error. " +
 			"R4 stream codecs: for every type with a Marshal/Unmarshal (or MarshalToBytes/UnmarshalFromBytes) pair the ordered field sequences agree; fixed-size HOB writers return the sum of the static sizes of what they write. " +
 			"R5 read counts: every io.Reader.Read call in eventlog and ovmf/abi has its count compared with the requested length (or is io.ReadFull). " +
+			"R6 no slice in the codec packages is extended beyond its own length (bound computed upwards from len(x) or admitted by cap(x)): padding is appended, never uncovered from the backing array. R1 additionally treats copy(p[lo:hi], src) in a range-writer helper as filling the range only if the helper itself enforces len(src) == hi-lo. " +
 			"Not covered: decode∘encode identity as values, zero-padding tolerance, GUID byte-order correctness.",
 		Assumptions: []string{"go/types constant evaluation", "encoding/binary primitive widths", "var arrays are zero-initialised"},
 		Run:         runC18,
@@ -389,6 +391,74 @@ func runC18(c *Ctx) {
 
 	// ---------------- R5 read counts ----------------
 	c.readCountRule("R5", []string{"eventlog", "ovmf/abi"}, 3)
+
+	// ---------------- R6 no reslice past len ----------------
+	// x[:h] with h computed upwards from len(x) (or admitted by a cap(x) test) exposes bytes of the
+	// backing array that the encoder did not write: padding must be appended, not uncovered.
+	nSl := 0
+	for _, f := range c.P.RepoFunctions() {
+		switch load.RelPkg(f) {
+		case "eventlog", "ovmf/abi", "ovmf", "sev", "tdx":
+		default:
+			continue
+		}
+		if c.isTestFunc(f) {
+			continue
+		}
+		for _, b := range f.Blocks {
+			for _, in := range b.Instrs {
+				sl, ok := in.(*ssa.Slice)
+				if !ok || sl.High == nil {
+					continue
+				}
+				if _, isSlice := sl.X.Type().Underlying().(*types.Slice); !isSlice {
+					continue
+				}
+				nSl++
+				grows := false
+				var walk func(v ssa.Value, d int, underAdd bool)
+				seen := map[ssa.Value]bool{}
+				walk = func(v ssa.Value, d int, underAdd bool) {
+					if v == nil || d > 6 || seen[v] {
+						return
+					}
+					seen[v] = true
+					if a, ok := lenArg(v); ok && underAdd && sameBytes(a, sl.X) {
+						grows = true
+						return
+					}
+					if call, ok := v.(*ssa.Call); ok {
+						if bi, ok := call.Call.Value.(*ssa.Builtin); ok && bi.Name() == "cap" && sameBytes(call.Call.Args[0], sl.X) {
+							grows = true
+						}
+						return
+					}
+					switch y := v.(type) {
+					case *ssa.BinOp:
+						if y.Op == token.SUB {
+							// len(x) − a (+ b): an offset from the end, not a growth of x
+							return
+						}
+						up := underAdd || y.Op == token.ADD || y.Op == token.MUL || y.Op == token.SHL || y.Op == token.OR
+						walk(y.X, d+1, up)
+						walk(y.Y, d+1, up)
+					case *ssa.Convert:
+						walk(y.X, d+1, underAdd)
+					case *ssa.Phi:
+						for _, e := range y.Edges {
+							walk(e, d+1, underAdd)
+						}
+					}
+				}
+				walk(sl.High, 0, false)
+				if grows {
+					c.S.Bad("R6", load.FuncName(f)+":reslice past len", c.pos(sl.Pos()), "the slice is extended to a bound computed upwards from its own length (or up to its capacity): the uncovered bytes are whatever the backing array holds, not bytes this encoder wrote (padding must be appended)")
+				}
+			}
+		}
+	}
+	c.S.Count("bounded_slices_examined", nSl)
+	c.S.OK("R6", "codec packages:no reslice past len", "", fmt.Sprintf("%d slice expressions with an upper bound examined; none extends a slice beyond its length", nSl), false)
 }
 
 func maxInt64(a, b int64) int64 {
